@@ -9,6 +9,8 @@ import WpModel.Model.Wire
 import WpModel.Model.Outline
 import WpModel.Model.Dates
 import WpModel.Model.Metadata
+import WpModel.Model.C18PdfString
+import WpModel.Model.C18Attach
 
 namespace Wp.Drive.Outline
 open Wp Wp.Outline Wp.Anchors
@@ -216,7 +218,8 @@ def handle (cmd : String) (args : List Sx) : Option String :=
         toString r.count)
   | "resolve", [.list pages] => do
     let pages ← allSome lpage? pages
-    pure ("(" ++ " ".intercalate ((resolveLinks pages).map showResolved) ++ ")")
+    pure ("(" ++ " ".intercalate ((resolveLinks pages).map showResolved) ++ ") (" ++
+      " ".intercalate ((resolveErrors pages).map esc) ++ ")")
   | "sortnames", [.list items] => do
     let items ← allSome nameItem? items
     pure ("(" ++ " ".intercalate ((sortNames items).map fun p => toString p.2) ++ ")")
@@ -389,11 +392,117 @@ def handleDoc (cmd : String) (args : List Sx) : Option String :=
     let names ← allSome str? names
     pure ("(" ++ " ".intercalate links ++ ") (" ++
       " ".intercalate ((Wp.Metadata.firstOccurrences names []).map esc) ++ ")")
+  | "pdfenc", [.list cps] => do
+    match Wp.PdfStr.encode (← allSome Sx.nat? cps) with
+    | .error e => pure (renderErr e)
+    | .ok bytes => pure ("(" ++ " ".intercalate (bytes.map toString) ++ ")")
+  | "pdfdec", [.list bytes] => do
+    let bytes ← allSome Sx.nat? bytes
+    match Wp.PdfStr.readString bytes with
+    | none => pure "unterminated"
+    | some (raw, rest) =>
+      let text := match Wp.PdfStr.textOf raw with
+        | none => "undecodable"
+        | some t => "(" ++ " ".intercalate (t.map toString) ++ ")"
+      pure ("(" ++ " ".intercalate (raw.map toString) ++ ") " ++ text ++ " " ++ toString rest.length)
+  | "meta", [lang, .list els] => do
+    let m := Wp.Metadata.getHtmlMetadata (← optChars? lang) (← allSome headEl? els)
+    let opt (v : Option (List Char)) : String := match v with | none => "none" | some t => showChars t
+    pure (opt m.title ++ " " ++ opt m.description ++ " " ++ opt m.generator ++ " (" ++
+      " ".intercalate (m.keywords.map showChars) ++ ") (" ++ " ".intercalate (m.authors.map showChars) ++ ") " ++
+      opt m.created ++ " " ++ opt m.modified ++ " " ++ opt m.lang)
+  | "rdf", [variant, version, conformance, producer, lang, .list els] => do
+    let m := Wp.Metadata.getHtmlMetadata (← optChars? lang) (← allSome headEl? els)
+    let fields := Wp.Metadata.rdfFields (← variant.atom?) (← version.atom?) (← optStr? conformance) (← chars? producer) m
+    pure ("(" ++ " ".intercalate (fields.map fun (k, vs) => "(" ++ k ++ " " ++ " ".intercalate (vs.map showChars) ++ ")") ++ ")")
   | "info", [lang, .list els] => do
     let m := Wp.Metadata.getHtmlMetadata (← optChars? lang) (← allSome headEl? els)
     match Wp.Metadata.infoFields m with
     | .error e => pure (renderErr e)
     | .ok fields => pure ("(" ++ " ".intercalate (fields.map fun (k, v) => "(" ++ k ++ " " ++ showChars v ++ ")") ++ ")")
+  | _, _ => none
+
+/-! ### attachments -/
+
+open Wp.Attach in
+def att? : Sx → Option Att
+  | .list [size, name, urlBase, desc] => do
+    pure ⟨← optNat? size, ← optStr? name, ← optStr? urlBase, ← optStr? desc⟩
+  | _ => none
+
+def guess? : Sx → Option (String × String)
+  | .list [f, g] => do pure (← str? f, ← str? g)
+  | _ => none
+
+open Wp.Attach in
+def fetchEntry? : Sx → Option (String × Att)
+  | .list [url, a] => do pure (← str? url, ← att? a)
+  | _ => none
+
+open Wp.Attach in
+/-- `Attachment(url=…)` as a table; a URL outside the table fails to load. -/
+def fetchOf (table : List (String × Att)) (url : String) : Att :=
+  match table.find? (fun e => e.1 == url) with
+  | some e => e.2
+  | none => ⟨none, none, none, none⟩
+
+open Wp.Attach in
+def attLink? : Sx → Option AttLink
+  | .list [t, x1, y1, x2, y2] => do pure ⟨← str? t, ⟨← x1.rat?, ← y1.rat?, ← x2.rat?, ← y2.rat?⟩⟩
+  | _ => none
+
+open Wp.Attach in
+def attPage? : Sx → Option (Rat × Rat × List AttLink)
+  | .list [scale, height, .list links] => do pure (← scale.rat?, ← height.rat?, ← allSome attLink? links)
+  | _ => none
+
+/-- `/` + the MIME type with its slash written `#2f` (`f'/{mime_type.replace("/", "#2f")}'`). -/
+def mimeName (mime : String) : String := "/" ++ mime.replace "/" "#2f"
+
+open Wp.Attach in
+def showSpec (numbers : Bool) (f : FileSpec) : String :=
+  "(" ++ (if numbers then toString f.stream ++ " " ++ toString f.spec ++ " " else "") ++ esc f.filename ++ " " ++
+    esc (if numbers then mimeName f.subtype else f.subtype) ++ " " ++ toString f.size ++ " " ++ esc f.desc ++ ")"
+
+open Wp.Attach in
+def runAttPages (guesses : List (String × String)) (fetch : String → Att) (st : AnnotState)
+    (pages : List (Rat × Rat × List AttLink)) : AnnotState × List (List FileAnnot) :=
+  addAnnotationsPages guesses fetch st (pages.map fun p => (pageMatrix p.1 p.2.1, p.2.2))
+
+def indexOf? (xs : List Nat) (x : Nat) : String :=
+  match xs.findIdx? (· == x) with
+  | some i => toString i
+  | none => "lost"
+
+open Wp.Attach in
+def handleAttach (cmd : String) (args : List Sx) : Option String :=
+  match cmd, args with
+  | "watt", [.list guesses, next, a] => do
+    let r := writeAttachment (← allSome guess? guesses) (← next.nat?) (← att? a)
+    pure ((match r.1 with | none => "none" | some f => showSpec true f) ++ " " ++ toString r.2)
+  | "annots", [.list guesses, .list table, next, .list pages] => do
+    let table ← allSome fetchEntry? table
+    let r := runAttPages (← allSome guess? guesses) (fetchOf table) ⟨[], [], ← next.nat?⟩ (← allSome attPage? pages)
+    let showAnnot (a : FileAnnot) : String :=
+      "(" ++ toString a.stream ++ " " ++ toString a.annot ++ " " ++ toString a.fs ++ " " ++ showRect a.rect ++ ")"
+    pure ("(" ++ " ".intercalate (r.2.map fun p => "(" ++ " ".intercalate (p.map showAnnot) ++ ")") ++ ") (" ++
+      " ".intercalate (r.1.files.map (showSpec true)) ++ ") " ++ toString r.1.next)
+  | "docatt", [.list guesses, .list table, .list headLinks, .list docAtts, .list pages] => do
+    let guesses ← allSome guess? guesses
+    let table ← allSome fetchEntry? table
+    let headLinks ← allSome (fun x => match x with
+      | .list [h, t] => do pure (⟨← optStr? h, ← optStr? t⟩ : LinkEl)
+      | _ => none) headLinks
+    let r := runAttPages guesses (fetchOf table) ⟨[], [], 0⟩ (← allSome attPage? pages)
+    let specs := r.1.files.map (·.spec)
+    let showAnnot (a : FileAnnot) : String := "(" ++ indexOf? specs a.fs ++ " " ++ showRect a.rect ++ ")"
+    let e := embeddedFiles guesses r.1.next (metaAttachments (fetchOf table) headLinks ++ (← allSome att? docAtts))
+    let names := match e.2.1 with
+      | none => "none"
+      | some d => "(" ++ " ".intercalate (d.names.map fun n => "(" ++ esc n.1 ++ " " ++ indexOf? (e.1.map (·.spec)) n.2 ++ ")") ++ ")"
+    pure ("(" ++ " ".intercalate (r.2.map fun p => "(" ++ " ".intercalate (p.map showAnnot) ++ ")") ++ ") (" ++
+      " ".intercalate (r.1.files.map (showSpec false)) ++ ") (" ++
+      " ".intercalate (e.1.map (showSpec false)) ++ ") " ++ names)
   | _, _ => none
 
 end Wp.Drive.Outline
